@@ -196,6 +196,13 @@ def run_deadline(payload):
     how_re = e.set_re_hook(rehook)
     try:
         C.reset("step")
+        for pre in payload.get("pre_other", ()):  # earlier evals on ANOTHER context that has no limits at all
+            C.reset("step")
+            start[0] = 10 ** 9
+            try:
+                e.Context().eval(pre)
+            except Exception as ex:  # noqa: BLE001
+                return "setup (other context) failed: " + type(ex).__name__ + "\x00time"
         ctx = e.Context(time_limit=T, memory_limit=payload.get("ml"))
         for pre in payload.get("pre", ()):       # earlier evals on the same context (no deadline pressure)
             C.reset("step")
@@ -310,6 +317,16 @@ def _re_cases(Ts, ks, mls):
                                   "src": "kept.test(" + S(s) + ")", "T": T, "advance": adv, "regex": True}))
                 out.append((cid + " [ctor]", {"pre": ["var kept = /" + p + "/;", "var kept2 = new RegExp(" + S(p) + ");"],
                                               "src": "kept2.test(" + S(s) + ")", "T": T, "advance": adv, "regex": True}))
+    # the same pattern text was used before by a context without limits (and by an earlier eval of this context): whatever
+    # the engine remembers about a pattern must not carry that use's deadline, or lack of one, into this evaluation
+    for rx, (p, s) in REGEXES.items():
+        short = S(s[:6])
+        uses = ["%s.search(%s)" % (short, S(p)), "%s.match(%s)" % (short, S(p)), "new RegExp(%s).test(%s)" % (S(p), short),
+                "RegExp(%s).exec(%s)" % (S(p), short), "%s.split(new RegExp(%s))" % (short, S(p)), "/%s/.test(%s)" % (p, short)]
+        for api in ("match-string", "search-string", "RegExp-ctor", "RegExp-call", "test", "split"):
+            for T in Ts:
+                cid = "T=%d | regex %s via %s after the pattern was used by an unlimited context and by an earlier eval" % (T, rx, api)
+                out.append((cid, {"pre_other": uses, "pre": uses[:2], "src": build_re(api, rx, "plain"), "T": T, "advance": 5000, "regex": True}))
     return out
 
 
@@ -330,7 +347,10 @@ def _real_cases():
 
 def _sp(name, runner, fn, rule, bound, batch=20):
     return Space(name, "mc.props.c01:" + runner, fn, oracle="inline", rule=rule, bound=bound, batch=batch, watchdog=45,
-                 nontrivial=lambda cid, p, exp: True)
+                 nontrivial=lambda cid, p, exp: True,
+                 # under the virtual clock an evaluation is a deterministic function of the case: an outcome that is wrong once
+                 # and different the next time depends on what ran before in the process (the real-clock space is exempt)
+                 nondeterminism_is_violation=(runner != "run_real"))
 
 
 def spaces(tier, seed, all_strata=False):
